@@ -172,8 +172,9 @@ class Exec:
         if k == 'real':
             return v.t != 0
         if k == 'set':
-            x = L.fresh('x', L.Ref)
-            return z3.Exists([x], st.mem(v.t, x))
+            A = st.elems(v.t)
+            st.assume(L.ne_facts(A))
+            return L.nonempty(A)
         if k == 'list':
             return st.llen(v.t) > 0
         if k == 'str':
@@ -292,9 +293,11 @@ class Exec:
             ctx.result = self.coerce(val, c.result_kind, st) if c.result_kind != 'none' else None
             hints = self.prove_lemmas(st, c.post_hints(ctx), ctx, 'post') if c.post_hints else []
             st.trace.append('return')
+            acc = list(hints)
             for label, fn in c._ensures:
                 goal = fn(ctx)
-                self.oblige(st, label, goal, 'post', ctx, extra=hints)
+                self.oblige(st, label, goal, 'post', ctx, extra=list(acc))
+                acc.append(goal)
             for lab, fm in WF.wf_obligations(st, self.all_modified(st)):
                 self.oblige(st, 'wf:' + lab, fm, 'post', ctx, extra=hints)
             self.frame_obligations(st)
@@ -836,24 +839,31 @@ class Exec:
         if kind == 'inv-preserve' and spec.hints is not None:
             hints = self.prove_lemmas(st, list(spec.hints(head_ctx, ctx)) + list(head_ctx.defs), ctx,
                                       'loop%d' % k, lineno)
+        acc = list(hints)
         for label, fn in spec.inv:
             goal = fn(ctx)
-            self.oblige(st, '%s/loop%d' % (label, k), goal, kind, ctx, extra=hints,
+            # sequential conjunction: clause k is proved with clauses 1..k-1 (each proved) as hypotheses
+            ch = (getattr(spec, 'clause_hints', None) or {}).get(label)
+            if ch is not None and kind == 'inv-preserve':
+                acc += self.prove_lemmas(st, list(ch(head_ctx, ctx)), ctx, 'loop%d:%s' % (k, label), lineno,
+                                         base=acc)
+            self.oblige(st, '%s/loop%d' % (label, k), goal, kind, ctx, extra=list(acc),
                         props=spec.props or self.c.label_props.get(label), lineno=lineno)
+            acc.append(goal)
         if fields is not None:
             for lab, fm in WF.wf_obligations(st, fields):
                 self.oblige(st, 'wf:%s/loop%d' % (lab, k), fm, kind, ctx, extra=hints, lineno=lineno)
             for lab, fm in self.outer_iter_stable(st, fields):
                 self.oblige(st, '%s/loop%d' % (lab, k), fm, kind, ctx, extra=hints, lineno=lineno)
 
-    def prove_lemmas(self, st, hints, ctx, where, lineno=None):
+    def prove_lemmas(self, st, hints, ctx, where, lineno=None, base=None):
         """Lemma items among the hints become obligations of their own (proved with the hints that
         precede them) and are then usable as hypotheses"""
         out = []
         for h in hints:
             if isinstance(h, L.Lemma):
                 self.oblige(st, 'lemma:%s/%s' % (h.name, where), h.formula, 'lemma', ctx,
-                            extra=list(out), lineno=lineno)
+                            extra=list(base or []) + list(out), lineno=lineno)
                 out.append(h.formula)
             else:
                 out.append(h)
@@ -894,6 +904,7 @@ class Exec:
             raise Unsupported('while/else')
         self.coerce_loop_vars(st, spec)
         loop_pre = st.copy()
+        st.g['$loop%d_pre' % k] = loop_pre
         kw = dict(loop_pre=loop_pre)
         names, fields = self.assigned_in(s.body, st)
         if spec.modifies:
@@ -1014,6 +1025,8 @@ class Exec:
         sref = itv.t
         S = st.elems(sref)
         loop_pre = st.copy()
+        st.g['$loop%d_pre' % k] = loop_pre
+        st.g['$loop%d_iterset' % k] = S
         names, fields = self.assigned_in(s.body, st)
         if spec.modifies:
             fields = fields | set(spec.modifies)
@@ -1062,6 +1075,7 @@ class Exec:
         n = st.llen(lref)
         lat = z3.Select(st.H('$lat'), lref)
         loop_pre = st.copy()
+        st.g['$loop%d_pre' % k] = loop_pre
         names, fields = self.assigned_in(s.body, st)
         if spec.modifies:
             fields = fields | set(spec.modifies)
